@@ -685,6 +685,25 @@ def canonicalise_fn_renames(doc):
         if len(cands) == 1:
             ren[n] = cands[0]
             taken.add(cands[0])
+    # a private function replaced by one of another signature (a parameter added, an index turned
+    # into the indexed element): when an impl / module lost exactly one pinned function and gained
+    # exactly one new one with the same return type, the new one stands in for it - the rules of
+    # that anchor then judge it by the roles of its parameters (and fail closed if they cannot)
+    left_new = {}
+    for n, b in sorted(cur.items()):
+        if n not in sigs and n not in ren:
+            left_new.setdefault(n.rsplit("::", 1)[0], []).append(n)
+    left_missing = {}
+    for m in missing:
+        if m not in taken:
+            left_missing.setdefault(m.rsplit("::", 1)[0], []).append(m)
+    for prefix, ns in left_new.items():
+        ms = left_missing.get(prefix, [])
+        if len(ns) == 1 and len(ms) == 1:
+            b = cur[ns[0]]
+            if b["hdr"]["locals"][0]["ty"] == sigs[ms[0]][0]:
+                ren[ns[0]] = ms[0]
+                taken.add(ms[0])
     if not ren:
         return {}
     pats = [(re.compile(r"(?<![\w:])" + re.escape(n) + r"(?![\w])"), m) for n, m in ren.items()]
